@@ -10,6 +10,7 @@
 
 #include "common/gen_msg.hpp"
 #include "common/hx.hpp"
+#include "common/vclock.hpp"
 #include "common/ref_crypto.hpp"
 #include "ephemeralnet/core/Node.hpp"
 #include "ephemeralnet/crypto/ChaCha20.hpp"
@@ -558,6 +559,7 @@ std::uint32_t ref_modexp(std::uint64_t base, std::uint32_t e, std::uint32_t m) {
 PeerId make_peer(Rng& r) { return r.arr<32>(); }
 
 void c12_case(Ctx& c, Rng& r) {
+    vclk::offset_mode();   // real time plus an offset that only grows (the re-handshake part lets rotation intervals elapse)
     using KX = network::KeyExchange;
     constexpr std::uint32_t p = KX::kPrime;
     // scalar layer
@@ -615,15 +617,22 @@ void c12_case(Ctx& c, Rng& r) {
     // key 0..3 times: accepting the handshake must again leave both on one key
     if (rehandshake) {
         const auto ra = r.below(4), rb = r.below(4);
-        for (std::uint64_t i = 0; i < ra; ++i) (void)A.rotate_session_key(idb);
-        for (std::uint64_t i = 0; i < rb; ++i) (void)B.rotate_session_key(ida);
+        // rotation happens when the rotation interval has elapsed on the rotating node's clock
+        const auto interval = A.config().key_rotation_interval;
+        std::uint64_t rotated_a = 0, rotated_b = 0;
+        for (std::uint64_t i = 0; i < std::max(ra, rb); ++i) {
+            vclk::advance(interval + std::chrono::seconds(1));
+            if (i < ra && A.rotate_session_key(idb)) ++rotated_a;
+            if (i < rb && B.rotate_session_key(ida)) ++rotated_b;
+        }
+        if (rotated_a != rotated_b) c.note("node.re-handshakes-with-different-rotation-counts");
         const auto wa3 = A.generate_handshake_work(idb);
         const auto wb3 = B.generate_handshake_work(ida);
         if (wa3 && wb3) {
             const bool okA3 = A.perform_handshake(idb, B.public_identity(), *wb3);
             const bool okB3 = B.perform_handshake(ida, A.public_identity(), *wa3);
             c.note("node.re-handshakes");
-            if (ra || rb) c.note("node.re-handshakes-after-rotation");
+            if (rotated_a || rotated_b) c.note("node.re-handshakes-after-rotation");
             if (!okA3 || !okB3) c.violation("C12:node:valid-handshake-rejected", J().kv("okA", okA3).kv("okB", okB3).kv("second_handshake", true).str());
             else {
                 const auto ka3 = A.session_key(idb), kb3 = B.session_key(ida);
